@@ -123,20 +123,27 @@ ListOfLen(t, n) ==
     [] t.k = "seqof" -> [j \in 1..n |-> ElemAt(t.of, j)]
 
 \* the value of a SEQUENCE for a presence pattern: pat[i] in {0 = absent, 1 = present (DEFAULT: non-default value), 2 = DEFAULT value itself}
+\* how = 3: present with the OTHER representative value - for structured components only (a CHOICE takes its first and its
+\* last alternative, a nested SEQUENCE its full and its minimal pattern, a list its two lengths), so that e.g. an extension
+\* alternative of a root CHOICE component meets every presence pattern of the additions around it
+Structured(t) == t.k \in {"choice", "seq", "seqof"}
 CompVal(c, i, how) ==
   IF how = 0 THEN <<>>
   ELSE IF how = 2 THEN c.dflt
   ELSE LET r == Rep(c.t)
-           x == r[((i - 1) % Len(r)) + 1]
+           x == r[((i - 1 + (IF how = 3 THEN 1 ELSE 0)) % Len(r)) + 1]
        IN IF c.mode = "def" /\ <<x>> = c.dflt THEN <<r[(i % Len(r)) + 1]>> ELSE <<x>>
 HowSet(t, i) ==
   LET c == t.comps[i]
+      alt == IF Structured(c.t) THEN {3} ELSE {}
   IN IF c.mode = "def" THEN {1, 2}      \* the Rust field of a DEFAULT component is not optional: it always has a value
-     ELSE IF c.mode = "opt" \/ ~IsRoot(t, i) THEN {0, 1} ELSE {1}
+     ELSE IF c.mode = "opt" \/ ~IsRoot(t, i) THEN {0, 1} \cup alt ELSE {1} \cup alt
 SeqVals(t) ==
   LET n == Len(t.comps)
-      pats == {p \in [1..n -> 0..2] : \A i \in 1..n : p[i] \in HowSet(t, i)}
-  IN {[i \in 1..n |-> CompVal(t.comps[i], i, p[i])] : p \in pats}
+      pats == {p \in [1..n -> 0..3] : \A i \in 1..n : p[i] \in HowSet(t, i)}
+      ps == SetToSeq(pats)
+  \* a sequence, not a set: two values of one CHOICE component are of different kinds, which TLC cannot compare
+  IN [j \in 1..Len(ps) |-> [i \in 1..n |-> CompVal(t.comps[i], i, ps[j][i])]]
 
 Rep(t) ==
   CASE t.k = "bool"   -> <<TRUE, FALSE>>
@@ -166,7 +173,7 @@ Values(t) ==
                              ps == SetToSeq({1, (n + 1) \div 2, n} \cap 1..n)
                          IN [j \in 1..Len(ls) |-> ListOfLen(t, ls[j])]
                             \o (IF t.cs = "utf8" THEN <<>> ELSE [j \in 1..Len(ps) |-> [good EXCEPT ![ps[j]] = BadChar(t.cs)]])
-    [] t.k = "seq"    -> SetToSeq(SeqVals(t))
+    [] t.k = "seq"    -> SeqVals(t)
     [] t.k = "choice" -> Concat([a \in 1..Len(t.alts) |->
                                    LET r == Rep(t.alts[a]) IN [j \in 1..Len(r) |-> [i |-> a - 1, v |-> r[j]]]])
 =============================================================================
